@@ -23,6 +23,8 @@ LINK = ('-L{repo}/_build/lib -lopmcommon -L/root/miniconda/lib -lfmt -lboost_sys
 
 def build_driver(prop, unit):
     src = os.path.join(VERIF, 'replay', 'drivers', '%s_%s.cpp' % (prop, unit))
+    if not os.path.exists(src) and '_' in unit:
+        src = os.path.join(VERIF, 'replay', 'drivers', '%s_%s.cpp' % (prop, unit.split('_')[0]))
     if not os.path.exists(src):
         return None, 'no native driver for unit %s' % unit
     exe = os.path.join(VERIF, '.work', prop, 'replay_%s' % unit)
@@ -80,7 +82,7 @@ def write_replay(prop, r, oid, line, desc, oname, builders):
     }
     reproduced = False
     exe, why = build_driver(prop, r.job.unit)
-    if exe and inputs:
+    if exe and (inputs or r.job.kind == 'coverage'):
         with open(path, 'w') as f:
             json.dump(rec, f, indent=1)
         kv = write_kv(path, rec)
